@@ -33,6 +33,8 @@ package best
 //@
 //@ func (*Service).Proposal
 //@   requires opts != nil
+//@   // slots handed to the strategy are duty slots: go-eth2-client only delivers duties of the wall-clock epoch requested
+//@   requires opts.Slot <= 9223372036854775807
 //@   assumes call NodeClient (r, err): err == nil ==> r != nil
 //@   chaninv respCh (m): m != nil && validProposal(m.proposal)
 //@   chaninv errCh (m): m != nil
